@@ -189,7 +189,8 @@ def createExcl (w : World) (p : Bytes) : Option (World × Path) :=
     | _ => none
 
 /-- a destination with total capacity `cap` that already holds `have_` bytes is
-    offered `d`: the part it takes, and whether the write call succeeds -/
+    offered `d`: the part it takes, and whether the write call succeeds
+    (`have_ ≤ cap` in every reachable state) -/
 def accept (cap : Option Nat) (have_ : Nat) (d : Bytes) : Bytes × Bool :=
   match cap with
   | none => (d, true)
@@ -207,7 +208,7 @@ inductive Lazy
 /-- what `out` is in `main` -/
 inductive Dest
   | stdout
-  | buffered               -- a bytes.Buffer copied to stdout when main returns (terminal to terminal)
+  | buffered               -- a bytes.Buffer copied to stdout when main returns (encrypting, terminal to terminal)
   | lazy (name : Bytes)
   deriving DecidableEq, Repr
 
